@@ -178,7 +178,8 @@ TEXT = {
           "extended above its frontier equals the rebuilt one (cached_overlay_sound), replaying a view's change set "
           "gives its reads and the change set is independent of write order (changes_replay_*, changes_order_independent). "
           "The model is tied to the code by the vdb stream (every read of every operation sequence compared), a "
-          "shadow-map monitor that states the property directly and a scan-vs-Get/Has monitor on every view.",
+          "shadow-map monitor that states the property directly and a scan-vs-Get/Has monitor on every view (key alphabets "
+          "incl. the empty key, the record under a bare Subset prefix, 00 / ff runs, the internal prefix bytes).",
   "design_ref": "§3 C07",
   "note": "Sequential model; caches are not state of the model (cache-free Get; the cached path is covered by "
           "cached_overlay_sound + correspondence); hypotheses of a frontier commit: height = frontier height + 1 < 2^64, "
@@ -255,7 +256,9 @@ TEXT = {
           "decided on real nodes by the `variants` stream (every alteration of every field the hash does not cover, for user "
           "blocks, contract blocks and momentums, delivered to a follower before the honest data; whatever is accepted must be "
           "stored with the original's bytes; known finding F9 for ChangesHash); typed RLP decoding and JSON object structure are covered by "
-          "Go-side round-trip monitors, T4 by an AST fact plus monitors (no Lean model of the ABI).",
+          "Go-side round-trip monitors, T4 by an AST fact plus monitors (no Lean model of the ABI): ValidateSendBlock of every "
+          "method directly, and owner-signed send blocks with non-canonical call data delivered end to end to real nodes "
+          "(gossip, publish, inside a momentum) - refused or stored canonical, never stored as delivered.",
   "technique": "Lean 4 proof (induction/omega/decide) + regenerated AST facts + differential correspondence",
  },
  "C19": {
@@ -271,8 +274,10 @@ TEXT = {
   "design_ref": "§3 C19",
   "note": "Tamper evidence (wrong password / flipped bit fails) is a cryptographic assumption, covered by the stream's "
           "monitor only (incl. near-miss passwords that differ in white space, case or normalisation); that the real "
-          "KeyFile object is not modified by reading it is the stream's sequence monitor + model comparison; the JSON text "
-          "layer is covered by the stream only.",
+          "KeyFile object is not modified by reading it is the stream's sequence monitor + model comparison (incl. every "
+          "password-taking entry point of wallet.Manager in every manager state); the JSON text layer and the persisted file "
+          "(Write over a path that already holds another key file or garbage, read back by ReadKeyFile / Manager.Start) are "
+          "covered by the stream only.",
   "technique": "Lean 4 proof (induction/omega/simp) + regenerated facts from AST + differential correspondence with oracle tables",
  },
  "C18": {
